@@ -116,6 +116,12 @@ class SyncPool:
 
 
 class NullPbar:
+    """Progress-bar argument of the pipeline functions: accepts the whole tqdm calling protocol and does nothing (which progress-bar
+    calls the product makes is not part of any property)."""
+    n = 0
+    total = None
+    disable = True
+
     def set_description(self, *a, **k):
         pass
 
@@ -125,9 +131,23 @@ class NullPbar:
     def close(self):
         pass
 
+    def __enter__(self):
+        return self
+
+    def __exit__(self, *a):
+        return False
+
+    def __iter__(self):
+        return iter(())
+
+    def __getattr__(self, name):
+        if name.startswith('__'):
+            raise AttributeError(name)
+        return lambda *a, **k: None
+
 
 class ListLogger:
-    """Logger argument of the pipeline functions; keeps every message."""
+    """Logger argument of the pipeline functions; keeps every message, accepts the whole logging.Logger calling protocol."""
 
     def __init__(self):
         self.messages = []
@@ -135,7 +155,21 @@ class ListLogger:
     def info(self, msg, *a, **k):
         self.messages.append(str(msg))
 
-    warning = warn = error = debug = info
+    warning = warn = error = debug = critical = exception = fatal = info
+
+    def log(self, level, msg, *a, **k):
+        self.messages.append(str(msg))
+
+    def isEnabledFor(self, level):
+        return True
+
+    def getEffectiveLevel(self):
+        return 0
+
+    def __getattr__(self, name):
+        if name.startswith('__'):
+            raise AttributeError(name)
+        return lambda *a, **k: None
 
 
 class _FastTime:
